@@ -908,21 +908,24 @@ def rule_set_coordinate(chk, fb):
                     fwd[h_] = m
     CELL = "structs::cell::Cell"
 
-    def new_fields(m, fl, op, depth=0):
-        """fields of the requested CellCoordinates the operand derives from, following parameters of a private Cell
-        helper back to the call sites in Cell"""
+    def sources(m, fl, op, depth=0):
+        """(fields of the requested CellCoordinates, getter names) the operand derives from, following parameters of a
+        private Cell helper back to the call sites in Cell"""
         at = fl.atoms(op)
         fields = {a[2] for a in at if a[0] == "field" and a[1].endswith("CellCoordinates")}
+        getters = {a[1].split("::")[-1] for a in at if a[0] == "call"}
         if depth < 2:
             for a in at:
-                if a[0] == "arg" and a[1] > 1:
+                if a[0] == "arg" and (a[1] > 1 or fb.mir[m]["locals"][1].get("n") != "self"):
                     for c, cbi in sorted(fb.callers.get(m, ())):
                         cb = fb.mir.get(c)
                         if cb and cb.get("self_ty") == CELL:
                             ct = cb["blocks"][cbi]["t"]
                             if a[1] - 1 < len(ct["args"]):
-                                fields |= new_fields(c, Flow(fb, cb), ct["args"][a[1] - 1], depth + 1)
-        return fields
+                                f2, g2 = sources(c, Flow(fb, cb), ct["args"][a[1] - 1], depth + 1)
+                                fields |= f2
+                                getters |= g2
+        return fields, getters
 
     for d, b in sorted(fb.mir.items()):
         if b.get("self_ty") != CELL or "::{closure" in d:
@@ -934,9 +937,7 @@ def rule_set_coordinate(chk, fb):
                 apos = pos if t["fn"] in tr else fwd[t["fn"]][pos] - 1
                 if apos >= len(t["args"]):
                     continue
-                at = fl.atoms(t["args"][apos])
-                fields = new_fields(d, fl, t["args"][apos])
-                getters = {a[1].split("::")[-1] for a in at if a[0] == "call"}
+                fields, getters = sources(d, fl, t["args"][apos])
                 other = {"col": "row", "row": "col"}[newf]
                 ok = newf in fields and other not in fields and oldg in getters and ("get_%s_num" % other) not in getters
                 chk.ob(
